@@ -1692,6 +1692,12 @@ func c04NewTableShape(u *c04Universe, i, j int) []string {
 }
 
 func c04Replay(c *core.Ctx, payload json.RawMessage) {
+	var tp c04TrimPayload
+	if json.Unmarshal(payload, &tp) == nil && tp.Family == "trim" {
+		fmt.Printf("replaying trim family pair (%q, %q), strict=%v\n", tp.X, tp.Y, tp.Strict)
+		c04TrimPair(c, core.Scratch("c04trim"), tp.X, tp.Y, tp.Strict)
+		return
+	}
 	var p c04Payload
 	if err := json.Unmarshal(payload, &p); err != nil {
 		fmt.Println("bad payload:", err)
